@@ -300,6 +300,14 @@ func (gme *GCPMultiEndpoint) UpdateMultiEndpoints(meOpts *GCPMultiEndpointOption
 		return fmt.Errorf("default MultiEndpoint %q missing options", meOpts.Default)
 	}
 
+	// Validate all options before changing anything, so that a rejected update
+	// leaves the current configuration untouched.
+	for name, meo := range meOpts.MultiEndpoints {
+		if meo == nil || len(meo.Endpoints) == 0 {
+			return fmt.Errorf("MultiEndpoint %q: endpoints list cannot be empty", name)
+		}
+	}
+
 	validPools := make(map[string]bool)
 	for _, meo := range meOpts.MultiEndpoints {
 		for _, e := range meo.Endpoints {
@@ -307,19 +315,29 @@ func (gme *GCPMultiEndpoint) UpdateMultiEndpoints(meOpts *GCPMultiEndpointOption
 		}
 	}
 
-	// Add missing pools.
+	// Dial missing pools. If any dial fails, close the ones dialed by this call.
+	newConns := make(map[string]*grpc.ClientConn)
 	for e := range validPools {
 		if _, ok := gme.pools[e]; !ok {
 			// This creates a ClientConn with the gRPC-GCP balancer managing connection pool.
 			conn, err := gme.dialFunc(context.Background(), e, gme.opts...)
 			if err != nil {
+				for ne, nc := range newConns {
+					if cerr := nc.Close(); cerr != nil {
+						gme.log.Errorf("error while closing the pool for %q endpoint: %v", ne, cerr)
+					}
+				}
 				return err
 			}
 			if gme.log.V(FINE) {
 				gme.log.Infof("created new channel pool for %q endpoint.", e)
 			}
-			gme.pools[e] = newMonitoredConn(e, conn, gme)
+			newConns[e] = conn
 		}
+	}
+	// Add missing pools.
+	for e, conn := range newConns {
+		gme.pools[e] = newMonitoredConn(e, conn, gme)
 	}
 
 	// Add new multi-endpoints and update existing.
